@@ -77,7 +77,9 @@ def text_of(e, rng):
                 return None  # a GPU without memory request has no textual form in this domain
             return f"cuda({sp()}mem{sp()}={sp()}{t['gpus'][0]}G{sp()})"
         if t["dur"]:
-            return f"duration{sp()}={sp()}" + ("1h" if t["dur"] == 3600 else "2d")
+            # every spelling the grammar accepts: h / hours, d / days (with or without a space before the unit)
+            return f"duration{sp()}={sp()}" + (rng.choice(["1h", "1 h", "1hours", "1 hours"]) if t["dur"] == 3600
+                                               else rng.choice(["2d", "2 d", "2days", "2 days", "48h", "48 hours"]))
         parts = ([f"mem{sp()}={sp()}{t['mem']}G"] if t["mem"] else []) + [f"cores{sp()}={sp()}{t['cores']}"]
         return f"cpu({sp()}" + f"{sp()},{sp()}".join(parts) + f"{sp()})"
     if e["op"] == "and":
